@@ -60,7 +60,7 @@ static const std::set<std::string>& derived_getters() {
 }
 // getters that are functions of several fields (composite views): their value follows their constituents by design
 static const std::set<std::string>& computed_getters() {
-    static const std::set<std::string> s = {"Dot11Data.src_addr", "Dot11Data.dst_addr", "Dot11Data.bssid_addr", "IP.is_fragmented", "RadioTap.present", "RadioTap.options_payload",
+    static const std::set<std::string> s = {"Dot11Data.src_addr", "Dot11Data.dst_addr", "Dot11Data.bssid_addr", "IP.is_fragmented", "RadioTap.present", "RadioTap.options_payload", "RadioTap.header_size", "RadioTap.length", "RadioTap.trailer_size",
         "RadioTap.channel_freq", "RadioTap.channel_type", "EthernetII.header_size", "IPv6.headers"};
     return s;
 }
@@ -133,7 +133,7 @@ static void poke_others(PDU& o, const std::string& cls, const std::string& key, 
         u64 mx = f.width >= 64 ? ~0ULL : ((1ULL << f.width) - 1); u32 before = o.size(); std::unique_ptr<PDU> copy(o.clone());
         if (f.key == "IP.src_addr" && state != 1) continue;
         try { f.set(o, state == 1 ? mx : (r.next() & mx), r); } catch (...) {}
-        if (o.size() != before) { /* an option setter: undo by value */ const_cast<std::string&>(key); PDU* fresh = copy.release(); (void)fresh; delete fresh; return; }
+        if (o.size() != before && f.owner != "RadioTap") return;      // an option setter slipped in: stop poking (the field under test is still checked against this state)
     }
 }
 
@@ -142,7 +142,8 @@ static void run_field(const FieldOps& f, long round, Rng& r, bool thorough) {
     if (W == 0) { cnt("pairs_non_scalar_argument(C04)"); return; }
     std::unique_ptr<PDU> op(g_make[f.cls]()); PDU& o = *op; u32 state = (u32)(round % 3);
     // dynamic classification first: a setter that changes size() is an option setter (C04's business)
-    { std::unique_ptr<PDU> probe(g_make[f.cls]()); u32 s0 = probe->size(); try { f.set(*probe, 1, r); } catch (...) {} if (probe->size() != s0) { cnt("pairs_option_setter(C04)"); return; } }
+    const bool moving_layout = f.owner == "RadioTap";     // optional radiotap fields change the header size when first set: still header fields (exact layout: C11)
+    if (!moving_layout) { std::unique_ptr<PDU> probe(g_make[f.cls]()); u32 s0 = probe->size(); try { f.set(*probe, 1, r); } catch (...) {} if (probe->size() != s0) { cnt("pairs_option_setter(C04)"); return; } }
     poke_others(o, f.cls, f.key, r, state);
     std::vector<u64> vals; u64 mx = W >= 64 ? ~0ULL : ((1ULL << W) - 1);
     if (W <= 8 || (thorough && W <= 16)) for (u64 v = 0; v <= mx; ++v) vals.push_back(v);
@@ -158,7 +159,7 @@ static void run_field(const FieldOps& f, long round, Rng& r, bool thorough) {
         try { v = f.set(o, x, r); }
         catch (const exception_base&) { cnt("setter_rejected_value"); continue; }
         catch (const value_too_large&) { cnt("setter_rejected_value"); continue; }
-        if (o.size() != size0) { cnt("pairs_option_setter(C04)"); return; }
+        if (o.size() != size0 && !moving_layout) { cnt("pairs_option_setter(C04)"); return; }
         cnt("sets");
         Val g; try { g = f.get(o); } catch (const std::exception& e) { violation("getter-throws/" + key, std::string("getter threw after set: ") + e.what()); return; }
         if (g.numeric && v.numeric && g.num != v.num) { bool trunc = false; for (unsigned k = 1; k < W && !trunc; ++k) { u64 m = (1ULL << k) - 1; if (v.num > m && g.num == (v.num & m)) trunc = true; }
